@@ -80,7 +80,11 @@ def lower_unit(unit, workdir):
         if hasattr(unit, 'lower_regions'):
             for head, lines in unit.lower_regions(docs, prof):
                 protos.append(head + ';')
-                bodies.append([head] + lines)
+                if lines is not None:
+                    bodies.append([head] + lines)
+            # a region may leave the lowerable subset on its own (isolated like a function)
+            for fn, msg in getattr(prof, 'region_unlowered', {}).items():
+                unlowered[fn] = 'EXTRACTION BREAK (%s::%s): %s' % (unit.NAME, fn, msg)
         prof.fn_unlowered = unlowered
         # file-level constants referenced by the lowered text (e.g. static constexpr size_t k = 8)
         if prof.needed_globals:
@@ -339,6 +343,10 @@ def run_harness(unit, h, src_c, workdir, label_by_line, mode='proof', solver=Non
         # the bounded stand-in looks for a concrete counterexample to the function's own ensures
         # clauses; it runs with the memory-safety checks only (stated in the evidence)
         cb = ['cbmc', base + '.b.gb'] + BOUNDED_CHECKS + ['--unwind', str(h.get('unwind', 6)), '--unwinding-assertions']
+        if h.get('bounded_unwindset'):
+            # per-function recursion bounds (a recursion that the precondition makes unreachable would
+            # otherwise be unrolled --unwind times at every call site)
+            cb += ['--unwindset', ','.join(h['bounded_unwindset'])]
     else:
         cb = ['cbmc', base + '.b.gb'] + CBMC_CHECKS + list(h.get('cbmc_args', []))
         if h.get('unwindset'):
@@ -367,10 +375,20 @@ def run_harness(unit, h, src_c, workdir, label_by_line, mode='proof', solver=Non
     else:
         status = 'toolerror'
     src_name = os.path.basename(src_c)
+    # postconditions are numbered by CBMC in clause order; the source line it reports for a clause is
+    # sometimes the line of the PREVIOUS clause (seen with multi-line macro arguments), so the ordinal decides
+    spec_h = unit.CONTRACTS.get(h.get('fn'), {})
+    ens_labels = [c[0] for c in spec_h.get('contract', []) if c[1] == 'ensures' and not (c[4] if len(c) > 4 else {}).get('replace_only')]
     for r in res:
         r['label'] = None
         if r['file'] and os.path.basename(r['file']) == src_name and r['line'] in label_by_line:
             r['label'] = label_by_line[r['line']]
+        mo = re.match(r'^(\w+)\.postcondition\.(\d+)$', r['id'])
+        if mo and mo.group(1).endswith(h.get('fn', '\0')) and 1 <= int(mo.group(2)) <= len(ens_labels):
+            byord = ens_labels[int(mo.group(2)) - 1] or None
+            if byord != r['label']:
+                r['label_by_line'] = r['label']
+                r['label'] = byord
     fails = [r for r in res if r['status'] != 'SUCCESS' and 'VACUITY_CANARY' not in r['desc']]
     if fails and status == 'failed':
         # second pass: counterexample traces for the failed obligations only (labelled clauses first)
